@@ -62,7 +62,7 @@ fn gamma(a: f64) -> f64 {
             / ((std::f64::consts::PI * a).sin()
                 * s
                 * 1.860_382_734_205_265_7
-                * ((a - 10.400511) / std::f64::consts::E).powf(0.5 - a))
+                * ((11.400511 - a) / std::f64::consts::E).powf(0.5 - a))
     } else {
         s += 1.051_423_785_817_219_7 / a;
         s += -3.456_870_972_220_162_5 / (a + 1.0);
